@@ -239,6 +239,8 @@ def cat_json(c):
          "numeric_value": fnum(c["numeric_value"])}
     if "date" in c:
         d["date"] = c["date"]
+    if "selected" in c:  # only variables built to stress dimension-type detection carry it
+        d["selected"] = c["selected"]
     return d
 
 
@@ -261,7 +263,10 @@ def dimension_dicts(v):
             els.append({"id": it["id"], "missing": bool(it.get("missing", False)), "value": val})
         d1 = {"derived": True, "references": copy.deepcopy(refs),
               "type": {"class": "enum", "elements": els, "subtype": {"class": "variable"}}}
-        if v.kind == "mr":
+        if v.kind == "mr" and getattr(v, "mr_cats", None):
+            # a selection dimension spelled differently (names, explicit selected:false ...)
+            cats = copy.deepcopy(v.mr_cats)
+        elif v.kind == "mr":
             cats = [
                 {"id": 1, "missing": False, "name": "Selected", "numeric_value": 1, "selected": True},
                 {"id": 0, "missing": False, "name": "Not Selected", "numeric_value": 0},
